@@ -10,12 +10,17 @@ route is present in the table read off the source.
 Canonical source of an argument expression inside caller F (value-level: copies are the identity):
   constant                          its literal ('next', True, None, 0)
   a parameter of F                  its name (whether or not F rebinds it: `sig = check_sig_dtype(sig)`)
-  self.attr                         "self.attr"
+  self.attr                         "self.attr"; when the method itself assigns it exactly once (`self.fs = fs`), the canonical source of that value
   a local assigned exactly once     the canonical source of what it was assigned:  y = x -> x;  y = x.copy() / deepcopy(x) / dict(x) -> x;
                                     y = g(...) -> "<g>";  a, b = g(...) -> "<g>.0", "<g>.1"
   x[c] with a constant c            canon(x) + "[c]"
   y = x.method(...)                 "<x.method>" when x is canonical
   anything else                     "?"   (NOT EXTRACTABLE: a wildcard, the assumed route is then not contradicted; listed in the status)
+a dict literal with constant keys     "{k1: canon(v1), k2: canon(v2)}" (keys sorted), "?" as soon as one value is
+callees: module-level functions (also under an import alias: `from m import f as g`), `partial(g, ...)`, a function-valued local
+(`f = g if cond else h`: one route per alternative), constructors of bycycle classes (callee = the class name, parameters of its `__init__`
+through the bases), methods on `self` (looked up through the bases; callee "Class.method") and on another receiver when exactly one other bycycle
+method has that name.
 positional arguments are mapped to the callee's parameter names through its signature, `**d` is recorded as parameter "**".
 A caller that no longer calls a callee at all contributes nothing (the Lean side treats an absent (caller, callee) pair as not extractable)."""
 import ast, os
@@ -31,18 +36,36 @@ MODULES = ['bycycle/objs/fit.py', 'bycycle/features/features.py', 'bycycle/featu
 COPY_FUNCS = {'deepcopy', 'copy', 'dict', 'list'}
 COPY_METHODS = {'copy'}
 
+CLASSES, ALIASES, MODULE_OF = {}, {}, {}
+
 def load():
     funcs, methods = {}, {}
+    CLASSES.clear(); ALIASES.clear(); MODULE_OF.clear()
     for m in MODULES:
         tree = ast.parse(open(os.path.join(REPO, m)).read())
+        ALIASES[m] = {}
         for n in tree.body:
             if isinstance(n, ast.FunctionDef):
-                funcs[n.name] = n
+                funcs[n.name] = n; MODULE_OF[n.name] = m
             elif isinstance(n, ast.ClassDef):
+                CLASSES[n.name] = [b.id for b in n.bases if isinstance(b, ast.Name)]
                 for k in n.body:
                     if isinstance(k, ast.FunctionDef):
-                        methods[n.name + '.' + k.name] = k
+                        methods[n.name + '.' + k.name] = k; MODULE_OF[n.name + '.' + k.name] = m
+            elif isinstance(n, ast.ImportFrom):
+                for al in n.names:
+                    if al.asname and al.asname != al.name: ALIASES[m][al.asname] = al.name        # `from m import f as g`: g IS f
     return funcs, methods
+
+def _resolve_method(methods, cls, name):
+    """Class.name looked up through the bases (single inheritance inside bycycle)"""
+    seen = set()
+    while cls is not None and cls not in seen:
+        seen.add(cls)
+        if cls + '.' + name in methods: return cls + '.' + name
+        bases = CLASSES.get(cls, [])
+        cls = bases[0] if bases else None
+    return None
 
 def _params(fn):
     a = fn.args
@@ -53,6 +76,14 @@ class Canon:
         self.fn = fn
         self.params = set(_params(fn)) | ({fn.args.kwarg.arg} if fn.args.kwarg else set()) | ({fn.args.vararg.arg} if fn.args.vararg else set())
         self.assigned = {}          # local name -> list of ('val', node) / ('elt', node, i) / ('other',)
+        self.self_assigned = {}     # attribute of self -> list of value nodes assigned to it in this method (plain `self.a = v` statements)
+        for n in ast.walk(fn):
+            if isinstance(n, ast.Assign):
+                for t in n.targets:
+                    if isinstance(t, ast.Attribute) and isinstance(t.value, ast.Name) and t.value.id == 'self':
+                        self.self_assigned.setdefault(t.attr, []).append(n.value)
+            elif isinstance(n, (ast.AugAssign, ast.AnnAssign)) and isinstance(n.target, ast.Attribute) and isinstance(n.target.value, ast.Name) and n.target.value.id == 'self':
+                self.self_assigned.setdefault(n.target.attr, []).extend([n.value, n.value])      # (counted twice: not a single plain assignment)
         for n in ast.walk(fn):
             if isinstance(n, ast.Assign):
                 for t in n.targets:
@@ -93,12 +124,23 @@ class Canon:
             src = self.of(a[0][1], depth + 1)
             return '?' if src == '?' else '%s.%d' % (src, a[0][2])
         if isinstance(e, ast.Attribute):
-            if isinstance(e.value, ast.Name) and e.value.id == 'self': return 'self.' + e.attr
+            if isinstance(e.value, ast.Name) and e.value.id == 'self':
+                # an attribute this very method assigns exactly once (`self.fs = fs` ... `f(self.fs)`) is the value it was assigned: `f(self.fs)` and `f(fs)` are one route
+                a = self.self_assigned.get(e.attr, [])
+                if len(a) == 1 and depth < 6:
+                    v = self.of(a[0], depth + 1)
+                    if v != '?' and not v.startswith('<'): return v
+                return 'self.' + e.attr
             return '?'
         if isinstance(e, ast.Subscript):
             b = self.of(e.value, depth + 1)
             if b != '?' and isinstance(e.slice, ast.Constant): return '%s[%r]' % (b, e.slice.value)
             return '?'
+        if isinstance(e, ast.Dict):
+            if not all(isinstance(k, ast.Constant) and isinstance(k.value, str) for k in e.keys): return '?'
+            items = sorted((k.value, self.of(v, depth + 1)) for k, v in zip(e.keys, e.values))
+            if any(v == '?' for _, v in items): return '?'
+            return '{' + ', '.join('%s: %s' % kv for kv in items) + '}'
         if isinstance(e, ast.Call):
             f = e.func
             if isinstance(f, ast.Name) and f.id in COPY_FUNCS and len(e.args) == 1 and not e.keywords: return self.of(e.args[0], depth + 1)
@@ -119,16 +161,44 @@ def extract():
     for cname, fn in list(funcs.items()) + list(methods.items()):
         cn = Canon(fn)
         calls = []
+        al = ALIASES.get(MODULE_OF.get(cname), {})
+        own_cls = cname.split('.')[0] if '.' in cname else None
+        def fname(x):
+            x = al.get(x, x)
+            return x if x in funcs else None
         for c in ast.walk(fn):
-            if not (isinstance(c, ast.Call) and isinstance(c.func, ast.Name)): continue
-            if c.func.id in funcs and c.func.id != cname.split('.')[-1]:
-                calls.append((c, c.func.id, list(c.args)))
-            elif c.func.id == 'partial' and c.args and isinstance(c.args[0], ast.Name) and c.args[0].id in funcs:
-                calls.append((c, c.args[0].id, list(c.args[1:])))          # partial(g, ...): the arguments fixed here reach g
+            if not isinstance(c, ast.Call): continue
+            if isinstance(c.func, ast.Name):
+                g = fname(c.func.id)
+                if g is not None and g != cname:
+                    calls.append((c, g, list(c.args), funcs[g], False))
+                elif c.func.id == 'partial' and c.args and isinstance(c.args[0], ast.Name) and fname(c.args[0].id):
+                    g = fname(c.args[0].id)
+                    calls.append((c, g, list(c.args[1:]), funcs[g], False))          # partial(g, ...): the arguments fixed here reach g
+                elif c.func.id in CLASSES:                                            # a constructor: the arguments reach Class.__init__ (through the bases)
+                    init = _resolve_method(methods, c.func.id, '__init__')
+                    if init: calls.append((c, c.func.id, list(c.args), methods[init], True))
+                else:
+                    # a function-valued local: `f = g if cond else h` ... `f(...)` calls g or h with these arguments
+                    a = cn.assigned.get(c.func.id, [])
+                    if len(a) == 1 and a[0][0] == 'val' and isinstance(a[0][1], ast.IfExp):
+                        for alt in (a[0][1].body, a[0][1].orelse):
+                            if isinstance(alt, ast.Name) and fname(alt.id):
+                                calls.append((c, fname(alt.id), list(c.args), funcs[fname(alt.id)], False))
+            elif isinstance(c.func, ast.Attribute):
+                # a method call: on self through the class and its bases; on another receiver when exactly one OTHER bycycle method has this name
+                mname = c.func.attr
+                if isinstance(c.func.value, ast.Name) and c.func.value.id == 'self' and own_cls:
+                    tgt = _resolve_method(methods, own_cls, mname)
+                else:
+                    cands = sorted(k for k in methods if k.split('.')[1] == mname and k != cname)
+                    tgt = cands[0] if len(cands) == 1 else None
+                if tgt and tgt != cname and not mname.startswith('__'):
+                    calls.append((c, tgt, list(c.args), methods[tgt], True))
         calls.sort(key=lambda t: (t[0].lineno, t[0].col_offset))
-        for c, gname, cargs in calls:
-            callee = funcs[gname]
+        for c, gname, cargs, callee, is_method in calls:
             pos = [x.arg for x in callee.args.posonlyargs + callee.args.args]
+            if is_method and pos and pos[0] == 'self': pos = pos[1:]
             args = []
             for i, a in enumerate(cargs):
                 if isinstance(a, ast.Starred): args.append(('*', '?')); continue
